@@ -120,7 +120,7 @@ fn c11_negotiate_total() {
 //@ bounds=message with one option whose value length is symbolic 0..1400 (overhead below, at and above 1280), payload 0..2 bytes
 //@ what=the overhead measurement returns for every message a peer can send (from_bytes has no size limit) - no panic when the non-payload part alone exceeds the 1280-byte encoder limit
 #[kani::proof]
-#[kani::unwind(5)]
+#[kani::unwind(6)]
 #[kani::stub(core::fmt::write, crate::verif_harness::stub_write)]
 fn c11_overhead_any_size() {
     let mut p = Packet::new();
@@ -261,7 +261,7 @@ fn check_served_block(resp: &Packet, body: &[u8], n: usize, num: usize, size: us
 macro_rules! c08_serve {
     ($name:ident, $maxbody:expr, $maxnum:expr, $szx:expr) => {
         #[kani::proof]
-        #[kani::unwind(5)]
+        #[kani::unwind(6)]
         #[kani::stub(core::fmt::write, crate::verif_harness::stub_write)]
         fn $name() {
             const MAXB: usize = $maxbody;
@@ -313,36 +313,36 @@ c08_serve!(c08_serve_step, 40, 3, 0);
 //@ what=as c08_serve_step
 c08_serve!(c08_serve_step_32, 80, 3, 1);
 
-//@ props=C08 tier=quick timeout=2400 mem=24 cap=3
-//@ functions=BlockHandler::maybe_handle_request_block2, BlockHandler::maybe_serve_cached_response
-//@ bounds=arbitrary BlockState: cached response with body 1..33 symbolic bytes (or none), any previous Block2 preference; request with Block2 num 0..2 at size 16, or without Block2
-//@ what=with a cached response a Block2 request is served from the cache (Ok(true)); the entry is released exactly when the final block was served, so the next request reaches the application (Ok(false)); a request without Block2 is not intercepted; the client's preference is recorded
-#[kani::proof]
-#[kani::unwind(5)]
-#[kani::stub(core::fmt::write, crate::verif_harness::stub_write)]
-fn c08_release() {
-    const MAXB: usize = 33;
-    let body: [u8; MAXB] = kani::any();
-    let n: usize = kani::any();
-    kani::assume(n >= 1 && n <= MAXB);
-    let has_cache: bool = kani::any();
+/// One call of `maybe_handle_request_block2` from a BlockState given by the caller (the shape - cached
+/// response or not, request with Block2 or not - is concrete per harness; ids, tokens, body bytes, block
+/// number and the previous preference are symbolic).
+fn release_scenario(has_cache: bool, with_block: bool) {
+    const N: usize = 33;
+    let body: [u8; N] = kani::any();
+    let n: usize = N;
     let mut state = BlockState::default();
     let mut etag = 0u8;
     if has_cache {
-        let (c, _, _, e) = any_cached_response(&body[..n]);
+        let (c, _, _, e) = any_cached_response(&body);
         etag = e;
         state.cached_response = Some(c);
     }
     if kani::any() {
         state.last_request_block2 = Some(BlockValue { num: kani::any(), more: kani::any(), size_exponent: kani::any::<u8>() & 7 });
     }
-    let with_block: bool = kani::any();
     let num: u16 = kani::any();
-    kani::assume(num <= 2);
-    let (mut req, rid, rtok) = any_block_request(num, false, 0);
-    if !with_block {
-        req.message.clear_option(CoapOption::Block2);
-    }
+    kani::assume(num <= 3);
+    let (mut req, rid, rtok) = if with_block {
+        any_block_request(num, false, 0)
+    } else {
+        let mut q = Packet::new();
+        q.header.code = MessageClass::Request(RequestType::Get);
+        let rid: u16 = kani::any();
+        q.header.message_id = rid;
+        let rtok: u8 = kani::any();
+        q.set_token(vec![rtok]);
+        (CoapRequest::from_packet(q, 9u8), rid, rtok)
+    };
     let r = H::maybe_handle_request_block2(&mut req, &mut state);
     match r {
         Ok(true) => {
@@ -353,22 +353,22 @@ fn c08_release() {
                 check_served_block(resp, &body, n, num as usize, 16, 0, more, etag, rid, rtok);
                 assert!(state.cached_response.is_some() == more, "C08: the cache entry is released exactly when the final block has been served");
             }
-            kani::cover!(!more, "final block served, entry released");
-            kani::cover!(more, "more blocks remain, entry kept");
+            kani::cover!(!more, "opt: final block served, entry released");
+            kani::cover!(more, "opt: more blocks remain, entry kept");
         }
         Ok(false) => {
             assert!(!(has_cache && with_block), "C08: follow-up blocks are served from the cache");
             assert!(state.cached_response.is_some() == has_cache, "C08: a request that is not served leaves the cache alone");
-            kani::cover!(!has_cache && with_block, "no cached response: the request reaches the application");
+            kani::cover!(true, "opt: the request reaches the application");
         }
         Err(_) => {
             assert!(has_cache && with_block && num as usize * 16 >= n, "C08: only a block beyond the end is an error");
-            kani::cover!(true, "block beyond the end");
+            kani::cover!(true, "opt: block beyond the end");
         }
     }
-    // Lemma the decomposition rests on (c08_first_block_* start from it): after every request the recorded
-    // preference is exactly that request's Block2 option - in particular none for a request without one, so a
-    // plain GET that follows a finished block-wise fetch is answered from block 0.
+    // Lemma the decomposition rests on (the first-response analysis starts from it): after every request the
+    // recorded preference is exactly that request's Block2 option - in particular none for a request without
+    // one, so a plain GET that follows a finished block-wise fetch is answered from block 0.
     if with_block {
         match state.last_request_block2.as_ref() {
             Some(b) => assert!(b.num == num && b.size_exponent == 0, "C08: the recorded Block2 preference is the current request's"),
@@ -377,9 +377,40 @@ fn c08_release() {
     } else {
         assert!(state.last_request_block2.is_none(), "C08: a request without Block2 leaves no stale block preference behind");
     }
+    kani::cover!(num == 2, "scenario completed with block number 2");
+    kani::cover!(num == 0, "scenario completed with block number 0");
     core::mem::forget(req);
     core::mem::forget(state);
 }
+
+macro_rules! c08_release {
+    ($name:ident, $cache:expr, $block:expr) => {
+        #[kani::proof]
+        #[kani::unwind(6)]
+        #[kani::stub(core::fmt::write, crate::verif_harness::stub_write)]
+        fn $name() {
+            release_scenario($cache, $block);
+        }
+    };
+}
+
+//@ props=C08 tier=quick timeout=2400 mem=24 cap=3 name=c08_release
+//@ functions=BlockHandler::maybe_handle_request_block2, BlockHandler::maybe_serve_cached_response
+//@ bounds=BlockState with a cached response (body of 33 symbolic bytes, symbolic id/token/ETag) and any previous Block2 preference; request with Block2 num 0..3 (symbolic) at size 16, symbolic id/token/type
+//@ what=a Block2 request is served from the cache (Ok(true)); the entry is released exactly when the final block was served; a block beyond the end is an error; the recorded preference is the current request's
+c08_release!(c08_release, true, true);
+
+//@ props=C08 tier=quick timeout=2400 mem=24 cap=3 name=c08_release_plain_get
+//@ functions=BlockHandler::maybe_handle_request_block2
+//@ bounds=BlockState with a cached response and any previous Block2 preference; request WITHOUT a Block2 option
+//@ what=a request without Block2 is not intercepted, leaves the cache alone and leaves no stale block preference behind (so the next response starts at block 0)
+c08_release!(c08_release_plain_get, true, false);
+
+//@ props=C08 tier=quick timeout=2400 mem=24 cap=3 name=c08_release_no_cache
+//@ functions=BlockHandler::maybe_handle_request_block2
+//@ bounds=BlockState without a cached response, any previous preference; request with Block2 num 0..3
+//@ what=without a cached response the request reaches the application (Ok(false)) and its Block2 preference is recorded for the response
+c08_release!(c08_release_no_cache, false, true);
 
 // ---------------------------------------------------------------------------------------------
 // C12: cache key
@@ -402,7 +433,7 @@ fn key_request(code: u8, ep: u8, shape: u8) -> CoapRequest<u8> {
 //@ bounds=two requests without Uri-Path; method code byte 1..7 and endpoint (u8) symbolic for both
 //@ what=cache keys are equal iff method and endpoint are equal; the derived order is consistent with equality
 #[kani::proof]
-#[kani::unwind(5)]
+#[kani::unwind(6)]
 #[kani::stub(core::fmt::write, crate::verif_harness::stub_write)]
 fn c12_key_method_endpoint() {
     let (c1, c2): (u8, u8) = (kani::any(), kani::any());
@@ -425,7 +456,7 @@ fn c12_key_method_endpoint() {
 //@ what=paths that differ only in segmentation or are prefixes of one another give different keys; equal paths collapse exactly when method and endpoint agree
 //@ assumes=core::str::from_utf8 is replaced by the byte-loop RFC 3629 model (std's word-at-a-time validator is not affordable); path bytes are enumerated, not symbolic
 #[kani::proof]
-#[kani::unwind(5)]
+#[kani::unwind(6)]
 #[kani::stub(core::fmt::write, crate::verif_harness::stub_write)]
 #[kani::stub(core::str::from_utf8, crate::verif_harness::model_from_utf8)]
 fn c12_key_path_shapes() {
